@@ -3,6 +3,7 @@ package main
 import (
 	"fmt"
 	"go/ast"
+	"go/constant"
 	"go/token"
 	"go/types"
 	"sort"
@@ -926,6 +927,59 @@ func c13Run(r *Run) {
 	}
 
 	c13MiddlewareOrder(r, pkg)
+
+	// multi-valued headers: a Set-Cookie line is added, never set (Header.Set keeps only the last cookie)
+	r.curRule = "C13-VALUE"
+	{
+		isHeaderSet := func(c *ast.CallExpr) bool {
+			se, ok := ast.Unparen(c.Fun).(*ast.SelectorExpr)
+			return ok && se.Sel.Name == "Set" && isNamed(info.TypeOf(se.X), "net/http", "Header")
+		}
+		// package functions whose i-th string parameter becomes the key of Header.Set
+		setsKey := map[types.Object]int{}
+		for _, fd := range funcDecls(pkg) {
+			k := 0
+			for _, f := range fd.Type.Params.List {
+				for _, nm := range f.Names {
+					po := info.Defs[nm]
+					idx := k
+					ast.Inspect(fd.Body, func(n ast.Node) bool {
+						if c, ok := n.(*ast.CallExpr); ok && isHeaderSet(c) && len(c.Args) == 2 {
+							if id, ok := ast.Unparen(c.Args[0]).(*ast.Ident); ok && info.Uses[id] == po {
+								setsKey[info.Defs[fd.Name]] = idx
+							}
+						}
+						return true
+					})
+					k++
+				}
+				if len(f.Names) == 0 {
+					k++
+				}
+			}
+		}
+		isSetCookieKey := func(e ast.Expr) bool {
+			tv, ok := info.Types[e]
+			return ok && tv.Value != nil && tv.Value.Kind() == constant.String && strings.EqualFold(constant.StringVal(tv.Value), "Set-Cookie")
+		}
+		for _, fd := range funcDecls(pkg) {
+			ast.Inspect(fd.Body, func(n ast.Node) bool {
+				c, ok := n.(*ast.CallExpr)
+				if !ok {
+					return true
+				}
+				key := funcKey(pkg, fd) + "#set-cookie-is-added"
+				if isHeaderSet(c) && len(c.Args) == 2 && isSetCookieKey(c.Args[0]) {
+					r.bad(key, c.Pos(), "a Set-Cookie header is written with Header.Set: every cookie set before replaces the previous one and only the last reaches the client")
+					return true
+				}
+				if idx, ok := setsKey[calleeOf(info, c)]; ok && idx < len(c.Args) && isSetCookieKey(c.Args[idx]) {
+					r.bad(key, c.Pos(), "a Set-Cookie header is written through "+exprStr(c.Fun)+", which uses Header.Set: every cookie set before replaces the previous one and only the last reaches the client")
+				}
+				return true
+			})
+		}
+	}
 
 	// PAIR
 	r.curRule = "C13-PAIR"
